@@ -194,7 +194,9 @@ func hasFieldSuffix(path, field string) bool { return strings.HasSuffix(path, ".
 
 // freshErrorType reports the named error struct type a value freshly
 // allocates (&UsageError{…} converted to error), or "".
-func freshErrorType(v ssa.Value) string {
+func freshErrorType(v ssa.Value) string { return freshErrorTypeD(v, 0) }
+
+func freshErrorTypeD(v ssa.Value, depth int) string {
 	for i := 0; i < 4; i++ {
 		switch x := v.(type) {
 		case *ssa.MakeInterface:
@@ -203,6 +205,22 @@ func freshErrorType(v ssa.Value) string {
 			v = x.X
 		case *ssa.Alloc:
 			return ssau.TypeName(x.Type())
+		case *ssa.Call:
+			// an error constructor: a function with one result all of whose returns are a fresh
+			// value of one error type (func errNotAtTopLevel() *UsageError { return &UsageError{...} })
+			f := x.Call.StaticCallee()
+			if f == nil || len(f.Blocks) == 0 || f.Signature.Results().Len() != 1 || depth > 2 {
+				return ""
+			}
+			tn := ""
+			for _, ret := range returns(f) {
+				t := freshErrorTypeD(ret.Results[0], depth+1)
+				if t == "" || (tn != "" && t != tn) {
+					return ""
+				}
+				tn = t
+			}
+			return tn
 		default:
 			return ""
 		}
